@@ -916,7 +916,7 @@ def _known_closures(config):
     return out
 
 
-def normalise_closures(data, kclos, log=None):
+def normalise_closures(data, kclos, log=None, known=None):
     """Closures are numbered in source order, so adding or removing one renumbers its siblings. Within each parent function
     the closures of the analysed tree are matched to those of the reference tree by content: a match takes the reference key,
     a closure without a match gets a key no rule can know (`{closure#new<N>}`) - it is then treated like any unknown helper."""
@@ -948,6 +948,20 @@ def normalise_closures(data, kclos, log=None):
                     used.add(cand[0])
             left_cur = [k for k in cur if k not in plan]
             left_ref = [k for k in ref if k not in used]
+            if left_ref and known:
+                # a closure that moved, together with the code around it, into a new helper the parent calls (an `async move {..}` block
+                # extracted into a private function): found by content among the closures of unknown functions called from the parent
+                pb = [bj for bj in d["bodies"] if bj["id"]["key"] == parent]
+                callees = {blk["term"]["callee"].get("key") for bj in pb for blk in bj["blocks"] if blk["term"].get("t") == "call" and blk["term"].get("callee")}
+                moved = {}
+                for r in list(left_ref):
+                    cand = [bj["id"]["key"] for bj in d["bodies"] if cre.match(bj["id"]["key"]) and cre.match(bj["id"]["key"]).group(1) in callees and
+                            cre.match(bj["id"]["key"]).group(1) not in known and body_hash(bj) == ref[r] and bj["id"]["key"] not in moved]
+                    if len(cand) == 1:
+                        moved[cand[0]] = r
+                if len(moved) == len(left_ref):
+                    plan.update(moved)
+                    left_ref = []
             if left_ref:
                 continue            # a reference closure changed AND the numbering moved: ambiguous, leave the keys alone
             fresh = 0
@@ -1174,7 +1188,7 @@ class Program:
         self.renamed = []
         cfg = self.info.get("config")
         normalise_consts(data, _known_consts(), self.renamed)
-        normalise_closures(data, _known_closures(cfg), self.renamed)
+        normalise_closures(data, _known_closures(cfg), self.renamed, set(_known_functions(None)))
         normalise_renames(data, _known_functions(cfg) if cfg else {}, _known_fields(), self.renamed)
         # function aliases are also needed where a callee name is computed (Into -> From in engine/flow.py)
         from . import flow as _flow
